@@ -84,10 +84,14 @@ Proof. destruct e; reflexivity. Qed.
 Lemma ev_equiv_refl e : ev_equiv e e.
 Proof. left; reflexivity. Qed.
 Lemma ev_equiv_sym e e' : ev_equiv e e' -> ev_equiv e' e.
-Proof. intros [->| ->]; [left; reflexivity|right; rewrite ev_swap_invol; reflexivity]. Qed.
+Proof.
+  intros [->|[-> H]]; [left; reflexivity|right]. rewrite ev_swap_invol. split; [reflexivity|].
+  destruct e; cbn in *. auto.
+Qed.
 Lemma ev_equiv_trans a b c : ev_equiv a b -> ev_equiv b c -> ev_equiv a c.
 Proof.
-  intros [->| ->] [->| ->]; [left|right|right|left]; try reflexivity. rewrite ev_swap_invol. reflexivity.
+  intros [->|[-> H]] [->|[-> H']]; [left; reflexivity|right; auto|right; auto|left].
+  rewrite ev_swap_invol. reflexivity.
 Qed.
 Lemma evs_equiv_refl l : Forall2 ev_equiv l l.
 Proof. apply Forall2_refl_in. intros; apply ev_equiv_refl. Qed.
@@ -349,7 +353,7 @@ Proof.
       destruct (negb (Bool.eqb (sign_positive v1) (sign_positive v2))); [|cbn [out_equiv err_equiv]; exact HZ].
       destruct (qc_zero v1 || qc_zero v2); [exact I|]. cbn [out_equiv]. split; cbn [fst snd].
       * eapply Forall2_map2; [|exact Hp]. intros; apply fill_converted_swap_equiv; assumption.
-      * right; reflexivity.
+      * right. split; [reflexivity|exact Hne].
   - pose proof (map_equiv_length _ _ HZ) as HL.
     destruct z' as [|[d1 w1] [|[d2 w2] [|y rest']]]; try discriminate HL.
     cbn [out_equiv err_equiv]. exact HZ.
